@@ -27,6 +27,7 @@ from mc import impl
 from mc.harness import ShardResult
 from mc.harness import chunks
 from mc.harness import h64
+from mc.vloop import run_solo
 
 ID = "C15"
 LEVEL = "exploration"
@@ -81,6 +82,8 @@ def tag_sites(m: str, nl: str) -> list[tuple[str, str]]:
     s.append(("tr-plural-body-lines", "{% translate" + nl + " count: 2 %}\n" + m + "\n{% plural %}\n" + m + "s\n{% endtranslate %}"))
     s.append(("tr-ctx", "{% translate" + nl + " context: 'ctx" + m + "' %}" + m + "{% endtranslate %}"))
     s.append(("tr-arg", "{% translate you: g" + nl + " %}" + m + " {{ you }}{% endtranslate %}"))
+    s.append(("tr-empty-ctx", "{% translate context: ''" + nl + " %}" + m + "{% endtranslate %}"))
+    s.append(("tr-empty-ctx-plural", "{% translate context: ''," + nl + " count: 2 %}" + m + "{% plural %}" + m + "s{% endtranslate %}"))
     for c in COUNTS:
         cnt = (" count: " + c) if c else ""
         s.append((f"tr-plural-{c}", "{% translate" + nl + cnt + " %}" + m + "{% plural %}" + m + "s{% endtranslate %}"))
@@ -97,6 +100,17 @@ def expr_sites(m: str) -> list[tuple[str, str]]:
         ("gettext", q + " | gettext"),
         ("gettext-then", q + " | gettext | upcase"),
         ("pgettext", q + " | pgettext: 'ctx" + m + "'"),
+    ]
+    # argument orders and repeats: a keyword before the positional ones, the plural keyword given twice (the last wins),
+    # an empty context
+    s += [
+        ("t-kw-then-ctx", q + " | t: plural: '" + m + "s', 'ctx" + m + "', count: 2"),
+        ("t-plural-twice", q + " | t: plural: '" + m + "x', count: 2, plural: '" + m + "s'"),
+        ("t-empty-ctx", q + " | t: ''"),
+        ("ngettext-kw-first", q + " | ngettext: you: g, '" + m + "s', 2"),
+        ("pgettext-kw-first", q + " | pgettext: you: g, 'ctx" + m + "'"),
+        ("npgettext-kw-between", q + " | npgettext: 'ctx" + m + "', you: g, '" + m + "s', 2"),
+        ("pgettext-empty-ctx", q + " | pgettext: ''"),
     ]
     for c in COUNTS:
         if c is None:
@@ -225,7 +239,7 @@ def run_program(pieces: list[tuple[str, str]], partials: dict[str, str], data: d
         extract_from_templates(*templates.values())
     except Exception as e:  # noqa: BLE001
         out.append((f"C15:extract_from_templates-raises:{type(e).__name__}", {"source": source}, f"{type(e).__name__}: {e}"))
-    # dynamic side
+    # dynamic side: synchronous and asynchronous renders (the tags and filters have separate asynchronous twins)
     cat = Catalog()
     try:
         t_main.render(translations=cat, **data)
@@ -234,12 +248,22 @@ def run_program(pieces: list[tuple[str, str]], partials: dict[str, str], data: d
     except Exception as e:  # noqa: BLE001
         if res is not None:
             res.count("foreign:" + type(e).__name__)
+    cat_a = Catalog()
+    kind_a, val_a = run_solo(t_main.render_async(translations=cat_a, **data))
+    if kind_a != "ok" and not isinstance(val_a, LiquidError) and res is not None:
+        res.count("foreign-async:" + type(val_a).__name__)
+    if cat_a.calls != cat.calls:
+        out.append(("C15:async-render-makes-different-lookups", {"source": source, "partials": partials, "data": _show(data)}, {"sync": cat.calls[:6], "async": cat_a.calls[:6]}))
     if res is not None:
-        res.evaluations += 1
+        res.evaluations += 2
     literal_ids = set(spans)
     looked = False
     for fn, msg in cat.calls:
         base = msg[0] if isinstance(msg[0], str) else msg[1]
+        if base == "" and not any(x[1] == _norm(msg) for x in extracted):
+            # the empty message id is the catalog's own metadata entry: a template without message text must not ask for it
+            out.append(("C15:lookup-of-empty-message-id", {"lookup": [fn, msg], "source": source}, {"extracted": [(x[0], x[1]) for x in extracted]}))
+            continue
         base = next((i for i in literal_ids if base == i or base.startswith(i + " ")), None)  # ('M1 %(you)s' is site M1)
         if base is None:
             continue  # a data-supplied message id
@@ -305,7 +329,7 @@ def _programs(tier: str) -> list[tuple[list[tuple[str, str]], dict[str, str]]]:
         return _SP["progs"]
     progs: list[tuple[list[tuple[str, str]], dict[str, str]]] = []
     # degenerate templates
-    for src in ("", "{# just a comment #}", "{% # c %}", "{% comment %}c{% endcomment %}", "plain text\nonly", "{{ g }}", "\n\n", "{# Translators: lonely #}"):
+    for src in ("{% translate %}{% endtranslate %}", "{% translate %}{% plural %}{% endtranslate %}", "{% translate context: 'c' %}{% endtranslate %}x", "", "{# just a comment #}", "{% # c %}", "{% comment %}c{% endcomment %}", "plain text\nonly", "{{ g }}", "\n\n", "{# Translators: lonely #}"):
         progs.append(([("text", src)], {}))
     sm1 = site_markups("M1", tier)
     # single sites, preceded by 0..2 newlines of text
